@@ -880,11 +880,59 @@ fn dump(r: &Run) -> String {
     s
 }
 
+fn oracle(pid: &str, run: &Run) -> Vec<String> {
+    match pid {
+        "C01" => c01(run),
+        "C02" => c02(run),
+        "C03" => c03(run),
+        "C04" => c04(run),
+        "C05" => c05(run),
+        "C06" => c06(run),
+        "C07" => c07(run),
+        "C08" => c08(run),
+        "C09" => c09(run),
+        "C10" => c10(run),
+        "C11" => c11(run),
+        _ => vec![format!("no single-run oracle for {pid}")],
+    }
+}
+
 fn main() {
     let args: Vec<String> = std::env::args().collect();
     if args.len() < 3 {
         eprintln!("usage: verif-replay check <PID> <file> | dump <file>");
         std::process::exit(2);
+    }
+    std::panic::set_hook(Box::new(|_| {}));
+    if args[1] == "checkm" || args[1] == "dumpm" {
+        // checkm <PID> <dir> | dumpm <dir> : every regular file of <dir>, sorted by name
+        let dir = args.last().unwrap();
+        let mut names: Vec<_> = std::fs::read_dir(dir).expect("dir").filter_map(|e| e.ok()).map(|e| e.path()).filter(|p| p.is_file()).collect();
+        names.sort();
+        for pth in names {
+            let name = pth.file_name().unwrap().to_string_lossy().to_string();
+            let Ok(bytes) = std::fs::read(&pth) else { continue };
+            let Ok(src) = String::from_utf8(bytes) else { continue };
+            print!("@@ {name}\t");
+            match lex_with_watchdog(src) {
+                Err(_) => {}
+                Ok((src, res)) => {
+                    let run = build_run(src, res);
+                    if args[1] == "dumpm" {
+                        println!("DUMP");
+                        print!("{}", dump(&run));
+                    } else {
+                        let v = oracle(args[2].as_str(), &run);
+                        if v.is_empty() {
+                            println!("OK");
+                        } else {
+                            println!("FAIL {}: {}", args[2], v[0]);
+                        }
+                    }
+                }
+            }
+        }
+        return;
     }
     let file = args.last().unwrap();
     let src = match std::fs::read(file) {
@@ -900,7 +948,6 @@ fn main() {
             std::process::exit(2);
         }
     };
-    std::panic::set_hook(Box::new(|_| {}));
     let (src, res) = match lex_with_watchdog(src) {
         Ok(x) => x,
         Err(code) => std::process::exit(code),
@@ -912,23 +959,7 @@ fn main() {
         }
         "check" => {
             let pid = args[2].as_str();
-            let v = match pid {
-                "C01" => c01(&run),
-                "C02" => c02(&run),
-                "C03" => c03(&run),
-                "C04" => c04(&run),
-                "C05" => c05(&run),
-                "C06" => c06(&run),
-                "C07" => c07(&run),
-                "C08" => c08(&run),
-                "C09" => c09(&run),
-                "C10" => c10(&run),
-                "C11" => c11(&run),
-                _ => {
-                    eprintln!("no single-run oracle for {pid}");
-                    std::process::exit(2);
-                }
-            };
+            let v = oracle(pid, &run);
             if v.is_empty() {
                 println!("OK");
             } else {
@@ -938,6 +969,7 @@ fn main() {
                 std::process::exit(1);
             }
         }
+        "checkm" | "dumpm" => unreachable!(),
         "check-all" => {
             let mut bad = false;
             let all: [(&str, fn(&Run) -> Vec<String>); 11] = [("C01", c01), ("C02", c02), ("C03", c03), ("C04", c04), ("C05", c05), ("C06", c06), ("C07", c07), ("C08", c08), ("C09", c09), ("C10", c10), ("C11", c11)];
